@@ -20,6 +20,11 @@ class BuiltinMixin:
             return NONE
         if name.startswith('uf:'):
             return self.apply_spec_uf(name[3:], args)
+        if name == 'stubfn1':
+            # a converter of the environment: a pure function conv(x) of its argument, or an exception
+            if self.st.oracle.choose(2) == 1:
+                raise PyRaise('StubException', 'conv')
+            return SV('opq', self.ufunc('conv', OPQ, OPQ)(self.as_opq(args[0])), 'stored')
         if name == 'stubfn':
             # an arbitrary callable of the environment: may change the declared locations, may raise anything
             c = self.cur_contract or {}
@@ -401,6 +406,16 @@ class BuiltinMixin:
         for v in items:
             seen[key_of(v)] = v
         return SV('const', B.Items(list(seen.values())))
+
+    def bi_issubclass(self, args, kw, node):
+        a, b = args
+        if a.k != 'cls':
+            raise PyRaise('TypeError', 'issubclass arg 1')
+        if b.k == 'tuple':
+            return VB(any(x.k == 'cls' and self.src.is_subclass(a.t, x.t) for x in b.t))
+        if b.k == 'cls':
+            return VB(self.src.is_subclass(a.t, b.t))
+        return VB(False)
 
     def bi_callable(self, args, kw, node):
         return VB(args[0].k in ('func', 'cls'))
